@@ -132,8 +132,20 @@ fn run_workload(w: &[Txn], cfg: &Cfg, fail_at: u64, permanent: bool) -> (Outcome
                             if backend.mon.failed_calls.load(Ordering::SeqCst) == 0 {
                                 out.violations.push(format!("fault-op|txn {i}: a table operation failed without any injected failure: {e}"));
                             }
-                            // abandon the transaction
-                            let _ = txn.abort();
+                            // the caller either gives up, or goes on and commits although an
+                            // operation reported a storage failure: that commit must be refused -
+                            // whatever it published could never reach the storage any more
+                            if t.commit && (i + fail_at as usize) % 2 == 0 && backend.mon.failed_calls.load(Ordering::SeqCst) > 0 {
+                                match txn.commit() {
+                                    Ok(()) => out.violations.push(format!(
+                                        "fault-commit-after-error|txn {i} ({}): commit() was acknowledged although an operation of the transaction had reported the storage failure {e}",
+                                        if t.durable { "durable" } else { "non-durable" }
+                                    )),
+                                    Err(e2) => out.error_kinds.push(format!("commit-after-error:{}", err_tag(&e2))),
+                                }
+                            } else {
+                                let _ = txn.abort();
+                            }
                         }
                         Ok(()) => {
                             if t.commit {
@@ -274,8 +286,20 @@ pub fn run(args: &Args) {
             continue;
         }
         let page = *r.pick(&[512usize, 1024]);
-        let cfg = Cfg { page, region: 65536.max(page as u64 * 64), cache: *r.pick(&[0usize, 65536, 1 << 30]) };
-        let w = gen_workload(&mut r, page);
+        let mut cfg = Cfg { page, region: 65536.max(page as u64 * 64), cache: *r.pick(&[0usize, 65536, 1 << 30]) };
+        let mut w = gen_workload(&mut r, page);
+        if case_index % 4 == 1 {
+            // data several times larger than the cache: operations inside a transaction miss the
+            // read cache and reach the backend (and can fail there) although the transaction itself -
+            // non-durable ones in particular - has nothing it is required to write
+            cfg.cache = 32 * page;
+            let mut pre = vec![Txn { durable: true, two_phase: false, quick_repair: false, ops: vec![Op::Bulk(0, 0, 260, page / 3), Op::Bulk(1, 500, 200, 100)], commit: true }];
+            for t in w.iter_mut() {
+                t.durable = r.chance(1, 3);
+            }
+            pre.append(&mut w);
+            w = pre;
+        }
         out.begin_case(&format!("fault workload page={page} cache={} {}", cfg.cache, describe(&w).chars().take(300).collect::<String>()));
         let (base, _, _) = run_workload(&w, &cfg, 0, false);
         for v in &base.violations {
